@@ -132,6 +132,7 @@ fn shape_fields(name: &str) -> Vec<(&'static str, bool)> {
     match name {
         "S8" => S8Ops::fields(),
         "Q5" => Q5Ops::fields(),
+        "W20" => W20Ops::fields(),
         _ => R4Ops::fields(),
     }
 }
@@ -664,18 +665,18 @@ fn gen_tlw(r: &mut Rng, n: usize, out: &mut dyn Write) {
 }
 
 fn gen_tl(r: &mut Rng, n: usize, out: &mut dyn Write) {
-    for s in ["S8", "Q5", "R4"] {
+    for s in ["S8", "Q5", "R4", "W20"] {
         writeln!(out, "{}", shape_line(s)).unwrap();
     }
     for i in 0..n {
-        let shape = match r.below(10) { 0..=6 => "S8", 7 | 8 => "Q5", _ => "R4" };
+        let shape = if r.chance(1, 14) { "W20" } else { match r.below(10) { 0..=6 => "S8", 7 | 8 => "Q5", _ => "R4" } };
         let exact = i % 2 == 0;
         let tame = r.chance(3, 4);
         let tl = gen_timeline(r, shape, exact, tame);
         let fields = shape_fields(shape);
         let anim_idx: Vec<usize> = fields.iter().enumerate().filter(|(_, f)| f.1).map(|(i, _)| i).collect();
         writeln!(out, "reset").unwrap();
-        for s in ["S8", "Q5", "R4"] {
+        for s in ["S8", "Q5", "R4", "W20"] {
             writeln!(out, "{}", shape_line(s)).unwrap();
         }
         if exact { writeln!(out, "# exactcfg").unwrap(); }
